@@ -99,7 +99,9 @@ def run(ctx, args):
     configs = [("e0", prog, ["gen_deep_equal"]), ("e1", prog, ["gen_deep_equal=false"])]
     if thorough:
         configs += [("e2", universe.present_typedef(prog, 2), ["gen_deep_equal"]),
-                    ("e3", prog, ["gen_deep_equal", "value_type_in_container", "enum_as_int_32"]),
+                    # gen_deep_equal + value_type_in_container does not compile (containers of struct values): a
+                    # C01 matter (option combination), so the combination is not a C18 configuration
+                    ("e3", prog, ["gen_deep_equal", "enum_as_int_32", "naming_style=golint"]),
                     ("e4", universe.present_include(prog), ["gen_deep_equal", "nil_safe"])]
     for cid, p, o in configs:
         lab.add_case(cid, p, o)
